@@ -111,7 +111,8 @@ def parseAcceptHdr : Option Bytes → Option (List MRange)
 
 /-- how specifically range `r` covers media type `mt`: 3 exact, 2 `type/*`, 1 `*/*`, 0 not at all -/
 def rangeSpecificity (r : MRange) (mt : Bytes) : Nat :=
-  match splitOnChar '/' (lowerB (trimSp mt)) with
+  -- a configured media type may carry parameters ("application/json; charset=utf-8"): they take no part
+  match splitOnChar '/' (headerMediaType mt) with
   | [t, s] =>
     if r.typ == t && r.sub == s then 3
     else if r.typ == t && r.sub == ['*'] then 2
